@@ -38,6 +38,7 @@ def parseLabel (known : List String) (j : Json) : R (Label String) := do
   | [.str "rxMatch", f] => return .rxMatch (← optNat f)
   | [.str "rxSetEvent"] => return .rxSetEvent
   | [.str "rxRequeue"] => return .rxRequeue
+  | [.str "rxCleanPop"] => return .rxCleanPop
   | [.str "rxCleanup", b] => return .rxCleanup (← b.getBool?)
   | [.str "closeBegin"] => return .closeBegin
   | [.str "closeTxq"] => return .closeTxq
